@@ -16,9 +16,10 @@ theorem run_cons (c : Pipeline.Cfg) (mode : Mode) (file : List PLine) (x : PLine
   rw [h]
 
 /-- **what an `ok` outcome is made of** -/
-theorem assemble_ok_inv (m : Model) (o : Opts) (lines : List Line) (r : Result) (h : assemble m o lines = .ok r) :
+theorem assemble_ok_inv (isa : Operand.Isa) (m : Model) (o : Opts) (lines : List Line) (r : Result)
+    (h : assemble isa m o lines = .ok r) :
     ∃ k, select o.mode (lines.map (·.pl)) = .ok k ∧ k ≠ [] ∧ firstErr lines k = none ∧
-      r = resultOf m o (lines.map (·.pl)) k (analyze (cfgOf m o) k) := by
+      r = resultOf m o (lines.map (·.pl)) k (analyze (cfgOf isa m o) k) := by
   unfold assemble at h
   cases hs : select o.mode (lines.map (·.pl)) with
   | ok k =>
@@ -39,25 +40,26 @@ theorem assemble_ok_inv (m : Model) (o : Opts) (lines : List Line) (r : Result) 
   | badLines => simp [hs] at h
   | emptyKernel => simp [hs] at h
 
-theorem analyse_ok_inv (m : Model) (o : Opts) (file : Txt) (r : Result) (h : analyseX86 m o file = .ok r) :
-    ∃ fs k, collect (parseFile 0 file) = .ok fs ∧
-      select o.mode ((linesOf m fs).map (·.pl)) = .ok k ∧ k ≠ [] ∧ firstErr (linesOf m fs) k = none ∧
-      r = resultOf m o ((linesOf m fs).map (·.pl)) k (analyze (cfgOf m o) k) := by
-  unfold analyseX86 at h
-  cases hc : collect (parseFile 0 file) with
+theorem analyse_ok_inv (isa : Operand.Isa) (m : Model) (o : Opts) (file : Txt) (r : Result)
+    (h : analyse isa m o file = .ok r) :
+    ∃ fs k, collect (parseFileOf isa file) = .ok fs ∧
+      select o.mode ((linesOf isa m fs).map (·.pl)) = .ok k ∧ k ≠ [] ∧ firstErr (linesOf isa m fs) k = none ∧
+      r = resultOf m o ((linesOf isa m fs).map (·.pl)) k (analyze (cfgOf isa m o) k) := by
+  unfold analyse at h
+  cases hc : collect (parseFileOf isa file) with
   | error ne => obtain ⟨n, e⟩ := ne; simp [hc] at h
   | ok fs =>
     simp only [hc] at h
-    obtain ⟨k, h1, h2, h3, h4⟩ := assemble_ok_inv m o _ r h
+    obtain ⟨k, h1, h2, h3, h4⟩ := assemble_ok_inv isa m o _ r h
     exact ⟨fs, k, rfl, h1, h2, h3, h4⟩
 
 /-- the same, with the file given by its lines -/
-theorem analyse_lines_ok_inv (m : Model) (o : Opts) (ls : List Txt) (hne : ls ≠ []) (hnl : ∀ l ∈ ls, 10 ∉ l)
-    (r : Result) (h : analyseX86 m o (Spec.X86R.joinLines ls) = .ok r) :
-    ∃ k, select o.mode ((textLines m ls).map (·.pl)) = .ok k ∧ k ≠ [] ∧ firstErr (textLines m ls) k = none ∧
-      r = resultOf m o ((textLines m ls).map (·.pl)) k (analyze (cfgOf m o) k) := by
-  obtain ⟨fs, k, hc, h1, h2, h3, h4⟩ := analyse_ok_inv m o _ r h
-  have e := linesOf_file m _ fs hc
+theorem analyse_lines_ok_inv (isa : Operand.Isa) (m : Model) (o : Opts) (ls : List Txt) (hne : ls ≠ [])
+    (hnl : ∀ l ∈ ls, 10 ∉ l) (r : Result) (h : analyse isa m o (Spec.X86R.joinLines ls) = .ok r) :
+    ∃ k, select o.mode ((textLines isa m ls).map (·.pl)) = .ok k ∧ k ≠ [] ∧ firstErr (textLines isa m ls) k = none ∧
+      r = resultOf m o ((textLines isa m ls).map (·.pl)) k (analyze (cfgOf isa m o) k) := by
+  obtain ⟨fs, k, hc, h1, h2, h3, h4⟩ := analyse_ok_inv isa m o _ r h
+  have e := linesOf_file isa m _ fs hc
   rw [splitLines_joinLines ls hne hnl] at e
   rw [e] at h1 h3 h4
   exact ⟨k, h1, h2, h3, h4⟩
